@@ -423,6 +423,41 @@ def c13(tier, repo=None):
                             assumptions=["a failing side branch of an eager (workflow) run that does not feed END may go unreported when END is assembled first (not judged)"])
 
 
+def c11_concurrent_part(tier, repo, verdict_cb):
+    """'Each top-level run ... gets its own freshly generated state object': overlapping runs of ONE compiled stateful runnable,
+    every run judged alone by the rule (its critical-section counter must start at 0 and never skip)."""
+    rnd = random.Random(vlib.SEED * 613 + 3)
+    scs, _ = engine.gen_family("sc3", consts("dag", 3, 4, 1, 0, marks=1, rerun=True), timeout=900)
+    rnd.shuffle(scs)
+    scs = scs[: 700 if tier == "quick" else 6000]
+    engine.decorate(scs, seed=vlib.SEED + 17, state_variants=True)
+    for sc in scs:
+        sc["fail"] = [f for f in sc.get("fail", []) if f["kind"] != "cspanic"]
+    callers = 4
+    lines, wall, _ = engine.replay_concurrent(scs, callers=callers, repo=repo)
+    res = engine.validate(lines, nproc=4)
+    bad = [(b[0], b[2]) for b in res["bad"] if not str(b[2]).startswith("NOTE:") and "C11" in owners(b[2], "C11")]
+    confirmed = 0
+    if bad:
+        by_id = {sc["id"]: sc for sc in scs}
+        ids = sorted({cid.split("#")[0] for cid, _ in bad})[:60]
+        lines2, _, _ = engine.replay_concurrent([by_id[i] for i in ids], callers=callers, repo=repo)
+        res2 = engine.validate(lines2, nproc=4)
+        again = {(b[0].split("#")[0], b[2]) for b in res2["bad"]}
+        idx2 = engine.index_cases(lines2)
+        seen = set()
+        for cid, reason in bad:
+            key = (cid.split("#")[0], reason)
+            if key in again and key not in seen:
+                seen.add(key)
+                confirmed += 1
+                if confirmed <= 3:
+                    k = next(x for x in idx2 if x.split("#")[0] == key[0])
+                    verdict_cb("overlapping-runs-share-state:" + reason, {"scenario": by_id[key[0]], "callers": callers, "observations": idx2[k][1][:40]}, reason)
+    log("  overlapping runs of one compiled stateful graph: %d scenarios x %d runs, %d rejected, %d confirmed, %.0fs" % (len(scs), callers, len(bad), confirmed, wall))
+    return len(scs) * callers, confirmed
+
+
 def c11(tier, repo=None):
     def nontrivial(case, obs):
         """at least three critical sections on a state were observed (pre/post handlers, ProcessState in bodies)"""
@@ -439,7 +474,7 @@ def c11(tier, repo=None):
                 ("sd4s", consts("dag", 4, 7, 2, 0, marks=2, rerun=True, multi=True), {"simulate": "num=10000000", "depth": 18, "seed": vlib.SEED, "workers": 1, "sim_seconds": 150, "keep": 60000})]
         limit = 200000
     return run_engine_check("C11", tier, model_cfgs=["MC_EinoRun_pregel2.cfg"], families=fams, decorate_kw={"state_variants": True},
-                            nontrivial=nontrivial, nest_frac=0.15, nest_marks=True, limit=limit, repo=repo,
+                            nontrivial=nontrivial, nest_frac=0.15, nest_marks=True, limit=limit, repo=repo, extra_part=c11_concurrent_part,
                             assumptions=["every pre-handler, post-handler and ProcessState callback of the harness performs one read-yield-write critical section on a counter kept in the state and logs it inside the lock; the rule demands that each one sees exactly the number of sections performed before it on that state (fresh state per run and per execution of a stateful nested graph, no lost update, carried over interrupts, +100 when the caller's state modifier ran)",
                                          "the deprecated GetState accessor is outside the property",
                                          "data-race freedom itself is not a trace property: the thorough tier additionally runs the replay under the Go race detector"])
